@@ -186,3 +186,54 @@ def run(ctx, repo):
                 ctx.violation('sna2ctl pipeline ' + key, where, '%s: %s; bytes %s; directives %s' % (name, '; '.join(problems[:2]), snap[start:end], [(a, ctls[a]) for a in keys]))
         else:
             ctx.ok({'image': name, 'directives': len(keys)} if k % 6 == 0 else None)
+
+def rst_rule(ctx, repo):
+    """C14.7 (*fold*): sna2ctl -r.  RST 8 with its argument byte in the middle of code, as the last two bytes of memory and as the very last
+    byte of memory, without and with a code map: every directive write_ctl emits lies inside [START, min(END, 65536)), sna2skool on the
+    generated file gives no overlap warning and skool2bin reproduces the bytes."""
+    ctx.rule('C14.7-rst', 'sna2ctl -r -> sna2skool -> skool2bin folded on images with RST 8 and its argument inside code and at the top of memory (with and without a code map): directives inside the range, no warnings, bytes reproduced', floor=6)
+    P = CtlPipeline(repo)
+    cfs = P.cf.sibling('snactl')
+    where = 'skoolkit/snactl.py, skoolkit/opcodes.py, skoolkit/rst.py'
+    cases = [('RST 8 + argument inside code', 40000, [0x00, 0xCF, 0x07, 0xAF, 0xC9], [0, 1, 3, 4]),
+             ('RST 8 at 65534, argument at 65535', 65530, [0x00, 0x00, 0x00, 0xC9, 0xCF, 0x41], [0, 1, 2, 3]),
+             ('RST 8 at 65535 (no room for its argument)', 65532, [0x3E, 0x01, 0x00, 0xCF], [0, 2, 3])]
+    for name, start, data, executed in cases:
+        snap = [0] * 65536
+        snap[start:start + len(data)] = data
+        end = start + len(data)
+        for use_map in (False, True):
+            code_map = None
+            P.binfiles.clear(); P.textfiles.clear()
+            if use_map:
+                code_map = 'map.text'
+                P.textfiles[code_map] = ['$%04X\n' % (start + o) for o in executed]
+            cfg = Rec(handle_rst=1, text_chars='', text_min_length_code=12, text_min_length_data=3, words=())
+            full = '%s%s' % (name, ', code map' if use_map else '')
+            try:
+                ctls = cfs.call_func('snactl', 'generate_ctls', [snap, start, end, code_map, cfg])
+                P.lines = []
+                cfs.call_func('snactl', 'write_ctl', [ctls, snap, Rec(handle_rst=1, comments=0, ctl_hex=0)])
+                ctl_lines = list(P.lines)
+                bad = []
+                for l in ctl_lines:
+                    if l[0] in 'bcgistuwBCSTWM':
+                        a = int(l.split()[1].split(',')[0])
+                        if a < start or a > min(end, 65536) or (a == 65536 and l[0] != 'i'):
+                            bad.append(l)
+                if bad:
+                    ctx.violation('sna2ctl -r ' + name, where, '%s: directive outside the range %d-%d: %s (control file %s)' % (full, start, end, bad, ctl_lines))
+                    break
+                skool = P.sna2skool(snap, ctl_lines, start, end, ctl_range=(0, 65536))      # the arguments are B sub-blocks now: sna2skool needs no -r
+                warns = [w for w in P.warnings if 'overlaps' in w or 'Two instructions' in w]
+                base, image = P.skool2bin(skool)
+            except NotLiteral as e:
+                ctx.limit('rst', 'not foldable (%s): %s' % (full, e))
+                continue
+            except (KeyError, IndexError, ValueError, TypeError, AttributeError) as e:
+                ctx.violation('sna2ctl -r ' + name, where, '%s: fails with %s: %s' % (full, type(e).__name__, e))
+                break
+            if warns or base != start or image != bytes(data):
+                ctx.violation('sna2ctl -r ' + name, where, '%s: control file %s; sna2skool warnings %s; skool2bin %d bytes at %d: %s, original %s' % (full, ctl_lines, warns[:2], len(image), base, list(image), data))
+                break
+            ctx.ok({'case': full})
